@@ -516,6 +516,49 @@ class RT:
     def is_(self, a, b):
         return sym.is_(a, b)
 
+    def boolop(self, is_or, *thunks):
+        c = cur()
+        if not c.nofork:
+            v = None
+            for t in thunks:
+                v = t()
+                if (v if is_or else not v):  # the decision Python makes (a symbolic truth value forks here)
+                    return v
+            return v
+        # speculative evaluation: no decisions.  Join boolean operands into one term; facts recorded while
+        # evaluating an operand hold only if the operands before it let evaluation get there
+        terms, reach = [], tm.TRUE
+        last = None
+        for t in thunks:
+            n0 = len(c.pc)
+            try:
+                v = t()
+            except (sym.Speculation, Unsupported, Infeasible, PathEnd):
+                raise
+            except Exception:  # noqa: BLE001  (an operand Python would perhaps not have evaluated)
+                raise sym.Speculation() from None
+            facts = c.pc[n0:]
+            del c.pc[n0:]
+            for f in facts:
+                c.pc.append(tm.Implies(reach, f))
+            last = v
+            if isinstance(v, bool):
+                if v == is_or:
+                    terms.append(tm.mk_bool(v))
+                    break
+                continue
+            if not isinstance(v, SymBool):
+                if not terms and not is_symbolic(v) and not hasattr(v, "__symtruth__"):
+                    if bool(v) == is_or:
+                        return v
+                    continue
+                raise sym.Speculation()
+            terms.append(v.t)
+            reach = tm.And(reach, tm.Not(v.t) if is_or else v.t)
+        if not terms:
+            return last
+        return wrap_bool(tm.Or(*terms) if is_or else tm.And(*terms))
+
     def not_(self, a):
         if isinstance(a, SymBool):
             return ~a
